@@ -189,14 +189,14 @@ def compare_outputs(ctx, prog, pit, exported, seed, what):
     xs = pitgen.example_inputs(prog, 4, seed + 1, scale=1.5)
     with torch.no_grad():
         try:
-            y_nas = pit(*xs)
+            y_nas = pitgen.out_tensor(pit(*xs))
         except Exception as e:
             ctx.violation('pit-forward-crash', {'sig': type(e).__name__ + ':' + str(e)[:60],
                                                 'exc': repr(e)[:300], 'what': what,
                                                 'features': prog.get('features')})
             return None
         try:
-            y_exp = exported(*xs)
+            y_exp = pitgen.out_tensor(exported(*xs))
         except Exception as e:
             ctx.violation('exported-forward-crash', {'sig': type(e).__name__,
                                                      'exc': repr(e)[:300], 'what': what,
@@ -287,6 +287,9 @@ def run_random(case, ctx, gen_opts=None):
         'allow_fixed': True, 'p_fixed_stem': 0.15,
         'hazards': ('add-of-cat', 'dw-after-cat', 'add-of-fixed', 'dw-after-fixed',
                     'excluded-consumer')})
+    if case['kind'] == 'random' and not case.get('special') and (case['prog_seed'] // 3) % 6 == 1:
+        # the same network also returning one of its intermediate tensors
+        pitgen.add_second_output(prog, random.Random(case['prog_seed'] + 1))
     try:
         model, pit, xs = pitlib.convert_pit(prog, case['seed'], fold_bn=case['fold'])
     except Exception as e:
